@@ -64,9 +64,9 @@ class TableReaderBase(list):
 
     hx,hy = self[highidx]
 
+    # (evaluated from the lower row: 'm*x + c' with c = ly - m*lx cancels badly for closely spaced rows far from the origin)
     m = (hy-ly)/(hx - lx)
-    c = ly - (m*lx)
-    return (m*x) + c
+    return ly + m*(x - lx)
 
   def _findIndex(self, x):
     """Returns the index of the last x value in this object that is less than x.
